@@ -4,7 +4,6 @@ import copy
 import fnmatch
 import json
 from collections.abc import Mapping, Sequence
-from operator import itemgetter
 from typing import Any, Dict, List, Optional
 
 import jsonpatch
@@ -74,7 +73,9 @@ def _ensure_pointer_exists(doc: Dict[str, Any], pointer: jsonpointer.JsonPointer
 
 def make_patch(old: Dict[str, Any], new: Dict[str, Any]) -> List[Dict[str, Any]]:
     """Generate a JSON patch by comparing the old document with the new one."""
-    return sorted(jsonpatch.make_patch(old, new).patch, key=itemgetter("path"))
+    # keep the order produced by the library: operations on arrays and "move"
+    # operations are order-sensitive, sorting them by path breaks the patch
+    return list(jsonpatch.make_patch(old, new).patch)
 
 
 def apply_patch(content: Optional[bytes], patch_bytes: bytes) -> bytes:
